@@ -2,9 +2,13 @@
 // monitor) to the real transaction authorisation of lemochain-core (C06).
 //
 // Every case of the specification is instantiated as a REAL transaction: real keys, real signing hashes
-// (types.DefaultSigner / ReimbursementTxSigner / GasPayerSigner), real multi-signature accounts configured by
-// real ModifySignersTx transactions, real boxes (whose JSON data an attacker may have re-written after the box
-// sender signed: other sub-transaction, forged / missing "hash" member).  The transaction is handed
+// (types.DefaultSigner / ReimbursementTxSigner / GasPayerSigner - every signature is made in the scheme, by the
+// key, on the content (before / after the change) its description names, whichever list it is then put into),
+// a gasPayer member that is absent / names the sender / names another account, real multi-signature accounts
+// configured by real ModifySignersTx transactions, real boxes (whose JSON data an attacker may have re-written
+// after the box sender signed: other sub-transaction, forged / missing "hash" member).  Every behaviour runs on
+// its own pair of nodes; the block that funds and configures the sender account is stable on both (confirmed by
+// the deputies), later re-configurations are not until a Stabilise step.  The transaction is handed
 //
 //	Offer:    to a mining node (node.Build -> BlockAssembler.MineBlock -> TxProcessor.ApplyTxs), and
 //	Validate: inside a block to a second node (DPoVP.InsertBlock -> TxProcessor.Process).  When the miner packaged
@@ -93,7 +97,7 @@ type content struct {
 	version  uint8
 	chainID  uint16
 	from     common.Address
-	gasPayer common.Address
+	gasPayer *common.Address // nil: the member is absent (the sender pays)
 	to       *common.Address
 	toName   string
 	gasPrice *big.Int
@@ -105,13 +109,16 @@ type content struct {
 }
 
 func (c content) raw() *rawTx {
-	gp := c.gasPayer
-	r := &rawTx{Type: c.typ, Version: c.version, ChainID: c.chainID, From: c.from, GasPayer: &gp, RecipientName: c.toName,
+	r := &rawTx{Type: c.typ, Version: c.version, ChainID: c.chainID, From: c.from, RecipientName: c.toName,
 		GasPrice: new(big.Int).Set(c.gasPrice), GasLimit: c.gasLimit, Amount: new(big.Int).Set(c.amount),
 		Data: append([]byte{}, c.data...), Expiration: c.exp, Message: c.message}
 	if c.to != nil {
 		to := *c.to
 		r.Recipient = &to
+	}
+	if c.gasPayer != nil {
+		gp := *c.gasPayer
+		r.GasPayer = &gp
 	}
 	return r
 }
@@ -175,18 +182,18 @@ type pending struct {
 type adapter struct {
 	w       *node.World
 	dir     string
-	builder *node.Node
-	signer  *ring // keys of the registered signers 1, 2, ... of sender accounts
-	psigner *ring // keys of the registered signers 1, 2, ... of payer accounts
+	builder *node.Node // the mining node of the current behaviour
+	signer  *ring      // keys of the registered signers 1, 2, ... of sender accounts
+	psigner *ring      // keys of the registered signers 1, 2, ... of payer accounts
 	foreign *acct
 	wrapper *acct // sender of boxes
-	payer2  *acct // the account a tampered gasPayer field points to
+	payer2  *acct // Q: a second, plain, other account (the one a tampered gasPayer field points to)
+	nobody  common.Address
 	senders map[string]*acct
 	payers  map[string]*acct
-	setup   map[string]chainPos // per initial sender configuration: the funded and configured chain on the builder
 	cand    [3]common.Address
 
-	nut    *node.Node
+	nut    *node.Node // the validating node of the current behaviour
 	old    []*node.Node
 	sender *acct
 	head   chainPos
@@ -202,14 +209,13 @@ func (a *adapter) init() {
 	}
 	a.w = node.NewWorld(nDeputies, 1000)
 	deputynode.SetSelfNodeKey(a.w.Outsider2())
-	a.builder = a.w.NewNode(filepath.Join(a.dir, "builder"))
 	a.signer, a.psigner = newRing("s"), newRing("p")
 	a.foreign = newAcct("foreign")
 	a.wrapper = newAcct("wrapper")
 	a.payer2 = newAcct("payer2")
+	a.nobody = newAcct("nobody").addr
 	a.senders = map[string]*acct{}
 	a.payers = map[string]*acct{}
-	a.setup = map[string]chainPos{}
 	a.cand = [3]common.Address{a.w.Miners[0], a.w.Miners[1], a.w.Miners[2]}
 }
 
@@ -223,14 +229,18 @@ func (a *adapter) view(db protocol.ChainDB, h common.Hash) view {
 func (v view) bal(x common.Address) *big.Int { return v.am.GetAccount(x).GetBalance() }
 
 // cfgOf maps the real registered signers of an account to the specification's configuration: the weights of
-// registered signers 1..k.  Anything else is reported verbatim (and rejected by the monitor).
+// the keys 1..k of the ring (0: that key is not registered).  Anything else is reported verbatim (and rejected by
+// the monitor).
 func (a *adapter) cfgOf(v view, x common.Address, keys *ring) interface{} {
 	ss := v.am.GetAccount(x).GetSigners()
-	w := make([]int, len(ss))
+	w := []int{}
 	for _, s := range ss {
-		idx := keys.of(s.Address, len(ss))
-		if idx == 0 || idx > len(ss) || w[idx-1] != 0 {
+		idx := keys.of(s.Address, len(ss)+4)
+		if idx == 0 || (idx <= len(w) && w[idx-1] != 0) {
 			return fmt.Sprintf("unexpected signers %s", ss.String())
+		}
+		for len(w) < idx {
+			w = append(w, 0)
 		}
 		w[idx-1] = int(s.Weight)
 	}
@@ -320,7 +330,7 @@ func signHash(h common.Hash, k *ecdsa.PrivateKey, variant int) []byte {
 var junkKey = newAcct("junk")
 
 func (a *adapter) simpleTx(from *acct, to common.Address, typ uint16, amount *big.Int, data []byte, exp uint64) *types.Transaction {
-	c := content{typ: typ, version: types.TxVersion, chainID: node.ChainID, from: from.addr, gasPayer: from.addr, to: &to,
+	c := content{typ: typ, version: types.TxVersion, chainID: node.ChainID, from: from.addr, gasPayer: &from.addr, to: &to,
 		gasPrice: new(big.Int).Set(unit), gasLimit: gasLimit + 100*uint64(len(data)), amount: amount, data: data, exp: exp}
 	r := c.raw()
 	r.Sigs = [][]byte{a.sign(c, types.DefaultSigner{}, from.key, 0)}
@@ -330,7 +340,9 @@ func (a *adapter) simpleTx(from *acct, to common.Address, typ uint16, amount *bi
 func (a *adapter) signersData(keys *ring, weights []int) []byte {
 	ms := &transaction.ModifySigners{}
 	for i, w := range weights {
-		ms.Signers = append(ms.Signers, types.SignAccount{Address: keys.get(i + 1).addr, Weight: uint8(w)})
+		if w > 0 { // (weight 0: the key with that number is not registered)
+			ms.Signers = append(ms.Signers, types.SignAccount{Address: keys.get(i + 1).addr, Weight: uint8(w)})
+		}
 	}
 	data, err := json.Marshal(ms)
 	if err != nil {
@@ -395,35 +407,72 @@ func (a *adapter) Reset(init map[string]tla.Value) (engine.Fields, error) {
 	if a.w == nil {
 		a.init()
 	}
-	// the previous node may still run the engine's background goroutines of its last InsertBlock: destroy it later
-	if a.nut != nil {
-		a.old = append(a.old, a.nut)
-		if len(a.old) > 4 {
-			a.old[0].Destroy()
-			a.old = a.old[1:]
+	// the previous nodes may still run the engine's background goroutines of their last InsertBlock: destroy them later
+	for _, n := range []*node.Node{a.nut, a.builder} {
+		if n != nil {
+			a.old = append(a.old, n)
 		}
+	}
+	for len(a.old) > 8 {
+		a.old[0].Destroy()
+		a.old = a.old[1:]
 	}
 	a.seq++
 	a.pend = nil
+	a.builder = a.w.NewNode(filepath.Join(a.dir, fmt.Sprintf("bld%d", a.seq)))
 	a.nut = a.w.NewNode(filepath.Join(a.dir, fmt.Sprintf("nut%d", a.seq)))
 	weights := ints(init["cfg"])
+	if sc, ok := init["scfg"]; ok && cfgKey(ints(sc)) != cfgKey(weights) {
+		return nil, fmt.Errorf("a behaviour starts with the sender's signers registered in a stable block (cfg %v, scfg %v)", weights, ints(sc))
+	}
 	key := cfgKey(weights)
 	if _, ok := a.senders[key]; !ok {
 		a.senders[key] = newAcct("sender" + key)
 	}
 	a.sender = a.senders[key]
-	if pos, ok := a.setup[key]; ok {
-		a.head = pos
-		a.feed(pos.blk, "setup")
-	} else {
-		a.head = chainPos{a.builder.Genesis, 4}
-		n := 0
-		ws := []want{{a.sender, a.signer, weights}, {a.wrapper, a.signer, nil}, {a.payer2, a.signer, nil}}
-		a.extend(a.setupTxs(a.head, ws, &n), "setup")
-		a.setup[key] = a.head
-	}
+	// the block that funds the accounts and registers the sender's signers; the deputies confirm it: it is stable on both nodes
+	a.head = chainPos{a.builder.Genesis, 4}
+	n := 0
+	ws := []want{{a.sender, a.signer, weights}, {a.wrapper, a.signer, nil}, {a.payer2, a.signer, nil}}
+	a.extend(a.setupTxs(a.head, ws, &n), "setup")
+	a.confirm("setup")
 	v := a.view(a.builder.DB, a.head.blk.Hash())
-	return engine.Fields{"cfg": a.cfgOf(v, a.sender.addr, a.signer), "sender": a.sender.addr.String()}, nil
+	return engine.Fields{"cfg": a.cfgOf(v, a.sender.addr, a.signer), "scfg": a.stableCfg(), "sender": a.sender.addr.String()}, nil
+}
+
+// confirm makes the head block (and so its ancestors) stable on both nodes of the behaviour: the validating node receives the
+// confirmations of three further deputies through DPoVP.InsertConfirms, the mining node's store is told so as its engine would.
+func (a *adapter) confirm(what string) {
+	blk := a.head.blk
+	var sigs []types.SignData
+	for r := 0; r < nDeputies && len(sigs) < 3; r++ {
+		if r != a.head.rank {
+			sigs = append(sigs, node.Sign(blk.Hash(), a.w.Keys[r], 0))
+		}
+	}
+	if a.nut.DP.StableBlock().Hash() != blk.Hash() { // (nothing to do when the head is the stable block already)
+		if err := a.nut.DP.InsertConfirms(blk.Height(), blk.Hash(), sigs); err != nil {
+			engine.Realf("%s: confirming block %d on the validating node: %v", what, blk.Height(), err)
+		}
+	}
+	if a.nut.DP.StableBlock().Hash() != blk.Hash() {
+		engine.Realf("%s: block %d confirmed by four of five deputies is not stable on the validating node", what, blk.Height())
+	}
+	if _, err := a.builder.DB.SetStableBlock(blk.Hash()); err != nil {
+		engine.Realf("%s: stabilising block %d on the mining node: %v", what, blk.Height(), err)
+	}
+}
+
+// stableCfg: the sender account's registered signers in the last stable block (of the mining node; the validating node has the same).
+func (a *adapter) stableCfg() interface{} {
+	sb, err := a.builder.DB.LoadLatestBlock()
+	if err != nil {
+		engine.Failf("no stable block: %v", err)
+	}
+	if nb := a.nut.DP.StableBlock(); nb.Hash() != sb.Hash() && a.pend == nil {
+		engine.Failf("the two nodes disagree on the stable block: %d / %d", sb.Height(), nb.Height())
+	}
+	return a.cfgOf(a.view(a.builder.DB, sb.Hash()), a.sender.addr, a.signer)
 }
 
 // ensurePayer makes sure the payer account with the given configuration exists on the current chain.
@@ -487,8 +536,7 @@ func (a *adapter) tamper(c content, f string, kind string, v view) content {
 		c.toName = "bob"
 	case "message":
 		c.message = "hi"
-	case "gasPayer":
-		c.gasPayer = a.payer2.addr
+	case "gasPayer": // (the member as submitted is set by the caller from the case's gp)
 	case "version":
 		c.version++
 	default:
@@ -498,8 +546,9 @@ func (a *adapter) tamper(c content, f string, kind string, v view) content {
 }
 
 type sigSpec struct {
-	by, v int
-	old   bool
+	by, v    int
+	old      bool
+	sch, who string
 }
 
 func sigSpecs(v tla.Value) []sigSpec {
@@ -510,11 +559,12 @@ func sigSpecs(v tla.Value) []sigSpec {
 	}
 	for i := 1; i <= n; i++ {
 		s := v.GetI(i)
-		out = append(out, sigSpec{s.F("by").I(), s.F("v").I(), s.F("old").B()})
+		out = append(out, sigSpec{s.F("by").I(), s.F("v").I(), s.F("old").B(), s.F("sch").S(), s.F("who").S()})
 	}
 	return out
 }
 
+// keyOf: the key `by` of account own (0: its own key, i: the i-th key of the ring its registered signers are taken from).
 func (a *adapter) keyOf(by int, own *acct, regs *ring) *ecdsa.PrivateKey {
 	switch {
 	case by == 0:
@@ -530,6 +580,36 @@ func (a *adapter) keyOf(by int, own *acct, regs *ring) *ecdsa.PrivateKey {
 	return nil
 }
 
+// schemeHash is the signing hash of scheme sch for content ct carrying the sender signatures ss.
+func schemeHash(sch string, ct content, ss [][]byte) common.Hash {
+	r := ct.raw()
+	r.Sigs = ss
+	switch sch {
+	case "default":
+		return types.DefaultSigner{}.Hash(r.tx())
+	case "reimb":
+		return types.ReimbursementTxSigner{}.Hash(r.tx())
+	case "payer":
+		return types.GasPayerSigner{}.Hash(r.tx())
+	}
+	engine.Failf("unknown signing scheme %q", sch)
+	return common.Hash{}
+}
+
+// payerAcct: the account a gasPayer member makes pay ("S" the sender, "P" the other account, "Q" the second other account).
+func payerAcct(gp string) string {
+	switch gp {
+	case "absent", "sender":
+		return "S"
+	case "payer":
+		return "P"
+	case "payer2":
+		return "Q"
+	}
+	engine.Failf("unknown gasPayer value %q", gp)
+	return ""
+}
+
 // holders returns the keys an honest wallet would sign with for the account as it is registered in v.
 func (a *adapter) holders(v view, acc *acct, regs *ring) []*ecdsa.PrivateKey {
 	ss := v.am.GetAccount(acc.addr).GetSigners()
@@ -538,7 +618,7 @@ func (a *adapter) holders(v view, acc *acct, regs *ring) []*ecdsa.PrivateKey {
 	}
 	var out []*ecdsa.PrivateKey
 	for _, s := range ss {
-		i := regs.of(s.Address, len(ss))
+		i := regs.of(s.Address, len(ss)+4)
 		if i == 0 {
 			engine.Failf("account %s has a signer nobody holds a key for", acc.name)
 		}
@@ -549,10 +629,16 @@ func (a *adapter) holders(v view, acc *acct, regs *ring) []*ecdsa.PrivateKey {
 
 func (a *adapter) Apply(s engine.Step) (engine.Fields, error) {
 	switch s.Act.Name {
-	case "Offer":
+	case "Offer", "OfferStale":
 		return a.offer(s.Act.Args[0])
 	case "Validate":
 		return a.validate()
+	case "Stabilise":
+		if a.pend != nil {
+			return nil, fmt.Errorf("Stabilise while a case is pending")
+		}
+		a.confirm("Stabilise")
+		return engine.Fields{"cfg": a.cfgOf(a.view(a.builder.DB, a.head.blk.Hash()), a.sender.addr, a.signer), "scfg": a.stableCfg()}, nil
 	}
 	return nil, fmt.Errorf("unknown action %s", s.Act.Name)
 }
@@ -561,25 +647,52 @@ func (a *adapter) offer(c tla.Value) (engine.Fields, error) {
 	if a.pend != nil {
 		return nil, fmt.Errorf("Offer while a case is pending")
 	}
-	kind, f, pay, box, label := c.F("kind").S(), c.F("f").S(), c.F("pay").S(), c.F("box").S(), c.F("label").S()
+	kind, f, gp0, gp, box, label := c.F("kind").S(), c.F("f").S(), c.F("gp0").S(), c.F("gp").S(), c.F("box").S(), c.F("label").S()
 	sigs, psigs := sigSpecs(c.F("sigs")), sigSpecs(c.F("psigs"))
-	// the account named as gas payer and the keys of its registered signers
+	if (f == "gasPayer") != (gp0 != gp) {
+		return nil, fmt.Errorf("case with f = %s, gasPayer %s -> %s", f, gp0, gp)
+	}
+	// P, the other account (exists only in the cases that name it or carry signatures of its holders)
 	var payer *acct
-	payerRing := a.psigner
-	switch pay {
-	case "self":
-	case "payer":
+	needP := gp0 == "payer" || gp == "payer"
+	for _, sg := range append(append([]sigSpec{}, sigs...), psigs...) {
+		needP = needP || sg.who == "P"
+	}
+	if needP {
 		payer = a.ensurePayer(ints(c.F("pcfg")))
-	case "own": // reimbursed form, the sender account reimburses itself
-		payer, payerRing = a.sender, a.signer
-	default:
-		return nil, fmt.Errorf("unknown pay %s", pay)
+	}
+	// the account in whose name a key signs and the ring its registered signers are taken from
+	holder := func(who string) (*acct, *ring) {
+		switch who {
+		case "S":
+			return a.sender, a.signer
+		case "P":
+			return payer, a.psigner
+		case "Q":
+			return a.payer2, a.psigner
+		}
+		engine.Failf("unknown account %q", who)
+		return nil, nil
+	}
+	gpField := func(g string) *common.Address {
+		switch g {
+		case "absent":
+			return nil
+		case "sender":
+			return &a.sender.addr
+		case "payer":
+			return &payer.addr
+		case "payer2":
+			return &a.payer2.addr
+		}
+		engine.Failf("unknown gasPayer value %q", g)
+		return nil
 	}
 	pos := a.head
 	v := a.view(a.builder.DB, pos.blk.Hash())
 	a.seq++
 	// ---- the content as signed (orig) and as submitted (cur)
-	orig := content{version: types.TxVersion, chainID: node.ChainID, from: a.sender.addr, gasPayer: a.sender.addr,
+	orig := content{version: types.TxVersion, chainID: node.ChainID, from: a.sender.addr, gasPayer: gpField(gp0),
 		gasPrice: new(big.Int).Set(unit), gasLimit: gasLimit, amount: new(big.Int), exp: a.exp(pos)}
 	// the recipient is the candidate the sender does not vote for at the moment (so that a vote for it is executable)
 	to := a.cand[0]
@@ -610,35 +723,30 @@ func (a *adapter) offer(c tla.Value) (engine.Fields, error) {
 	default:
 		return nil, fmt.Errorf("unknown kind %s", kind)
 	}
-	if payer != nil {
-		orig.gasPayer = payer.addr
-	}
 	cur := a.tamper(orig, f, kind, v)
+	cur.gasPayer = gpField(gp)
 	pick := func(old bool) content {
 		if old {
 			return orig
 		}
 		return cur
 	}
-	var senderScheme types.Signer = types.DefaultSigner{}
-	if pay != "self" {
-		senderScheme = types.ReimbursementTxSigner{}
+	// ---- the signatures: each made with the key, in the scheme and on the content (before / after the change) the case names
+	key := func(sg sigSpec) *ecdsa.PrivateKey {
+		own, regs := holder(sg.who)
+		return a.keyOf(sg.by, own, regs)
 	}
+	// (a payer-scheme signature that ends up in the SENDER list was made over the transaction without sender signatures)
 	var curSigs, origSigs [][]byte // origSigs: the same signers on the content before the change
 	for _, sg := range sigs {
-		curSigs = append(curSigs, a.sign(pick(sg.old), senderScheme, a.keyOf(sg.by, a.sender, a.signer), sg.v))
-		origSigs = append(origSigs, a.sign(orig, senderScheme, a.keyOf(sg.by, a.sender, a.signer), sg.v))
+		curSigs = append(curSigs, signHash(schemeHash(sg.sch, pick(sg.old), nil), key(sg), sg.v))
+		origSigs = append(origSigs, signHash(schemeHash(sg.sch, orig, nil), key(sg), sg.v))
 	}
 	// what the payer saw when it signed before the change: for f = "sigs" the first sender signature in its other encoding
 	oldSigs := curSigs
 	if f == "sigs" && len(sigs) > 0 {
-		oldSigs = append([][]byte{a.sign(pick(sigs[0].old), senderScheme, a.keyOf(sigs[0].by, a.sender, a.signer), 1-sigs[0].v)}, curSigs[1:]...)
+		oldSigs = append([][]byte{signHash(schemeHash(sigs[0].sch, pick(sigs[0].old), nil), key(sigs[0]), 1-sigs[0].v)}, curSigs[1:]...)
 		origSigs = oldSigs
-	}
-	payerSig := func(ct content, ss [][]byte, k *ecdsa.PrivateKey, variant int) []byte {
-		r := ct.raw()
-		r.Sigs = ss
-		return signHash(types.GasPayerSigner{}.Hash(r.tx()), k, variant)
 	}
 	var curPSigs, origPSigs [][]byte
 	for _, sg := range psigs {
@@ -646,26 +754,25 @@ func (a *adapter) offer(c tla.Value) (engine.Fields, error) {
 		if sg.old {
 			ss = oldSigs
 		}
-		curPSigs = append(curPSigs, payerSig(pick(sg.old), ss, a.keyOf(sg.by, payer, payerRing), sg.v))
-		origPSigs = append(origPSigs, payerSig(orig, origSigs, a.keyOf(sg.by, payer, payerRing), sg.v))
+		curPSigs = append(curPSigs, signHash(schemeHash(sg.sch, pick(sg.old), ss), key(sg), sg.v))
+		origPSigs = append(origPSigs, signHash(schemeHash(sg.sch, orig, origSigs), key(sg), sg.v))
 	}
-	// ---- the properly signed twin of the submitted content
+	// ---- the properly signed twin of the submitted content: the holders of the sender account sign in the scheme of the form, the
+	// holders of the account the submitted gasPayer member makes pay sign the gas terms (reimbursed form) unless the sender pays in
+	// the default form
+	twinPayer, twinRing := holder(payerAcct(gp))
+	twinReimb := len(psigs) >= 1 || payerAcct(gp) != "S"
+	twinScheme := "default"
+	if twinReimb {
+		twinScheme = "reimb"
+	}
 	var twinSigs, twinPSigs [][]byte
-	twinScheme := senderScheme
-	twinPayer, twinRing := payer, payerRing
-	if cur.gasPayer != cur.from && payer == nil { // tampered gasPayer field: the twin is a reimbursed transaction paid by payer2
-		twinScheme = types.ReimbursementTxSigner{}
-		twinPayer = a.payer2
-	}
 	for _, k := range a.holders(v, a.sender, a.signer) {
-		twinSigs = append(twinSigs, a.sign(cur, twinScheme, k, 0))
+		twinSigs = append(twinSigs, signHash(schemeHash(twinScheme, cur, nil), k, 0))
 	}
-	if twinPayer != nil {
-		if cur.gasPayer != twinPayer.addr { // tampered gasPayer field in a reimbursed transaction
-			twinPayer, twinRing = a.payer2, a.psigner
-		}
+	if twinReimb {
 		for _, k := range a.holders(v, twinPayer, twinRing) {
-			twinPSigs = append(twinPSigs, payerSig(cur, twinSigs, k, 0))
+			twinPSigs = append(twinPSigs, signHash(schemeHash("payer", cur, twinSigs), k, 0))
 		}
 	}
 	inner := func(ct content, ss, ps [][]byte) *types.Transaction {
@@ -681,7 +788,7 @@ func (a *adapter) offer(c tla.Value) (engine.Fields, error) {
 		if err != nil {
 			engine.Failf("box data: %v", err)
 		}
-		bc := content{typ: params.BoxTx, version: types.TxVersion, chainID: node.ChainID, from: a.wrapper.addr, gasPayer: a.wrapper.addr,
+		bc := content{typ: params.BoxTx, version: types.TxVersion, chainID: node.ChainID, from: a.wrapper.addr, gasPayer: &a.wrapper.addr,
 			gasPrice: new(big.Int).Set(unit), gasLimit: gasLimit, amount: new(big.Int), data: data, exp: orig.exp - 10}
 		r := bc.raw()
 		r.Sigs = [][]byte{a.sign(bc, types.DefaultSigner{}, k, 0)}
@@ -721,11 +828,11 @@ func (a *adapter) offer(c tla.Value) (engine.Fields, error) {
 		return nil, nil
 	}
 	// ---- hand it to the miner
-	sj := subjects{s: a.sender.addr, to: to, other: to, p: a.payer2.addr}
+	sj := subjects{s: a.sender.addr, to: to, other: to, p: a.nobody}
 	if cur.to != nil && *cur.to != to && *cur.to != a.sender.addr {
 		sj.other = *cur.to
 	}
-	if pay == "payer" {
+	if payer != nil {
 		sj.p = payer.addr
 	}
 	pre := a.observe(v, sj)
@@ -743,8 +850,9 @@ func (a *adapter) offer(c tla.Value) (engine.Fields, error) {
 	post := a.observe(a.view(a.builder.DB, blk.Hash()), sj)
 	fl := engine.Fields{"cfg": pre.cfg, "intake": ierr == nil, "packaged": packaged, "invalid": len(invalid) == 1, "ntx": len(blk.Txs),
 		"amount": units(cur.amount), "sameTo": sj.other == sj.to, "tx": common.ToHex(enc), "hash": caseTx.Hash().Hex()}
+	fl["scfg"] = a.stableCfg()
 	if payer != nil {
-		fl["pcfg"] = a.cfgOf(v, payer.addr, payerRing)
+		fl["pcfg"] = a.cfgOf(v, payer.addr, a.psigner)
 	} else {
 		fl["pcfg"] = []int{}
 	}
